@@ -209,6 +209,17 @@ PROPS = {
         text="Mutations keep enough structure to reach the parsers' inner logic (the table layer of transport streams stays valid, text documents stay line-structured); every crash is shrunk and saved as a self-contained replay. Absence of crashes is not established.",
         note="Trusted: stack-based attribution of third-party crashes; the watchdog limit.",
         design="5/C08", fuzz={"targets": ["FuzzSRT", "FuzzVTT", "FuzzSSA", "FuzzTTML", "FuzzSTL", "FuzzTS"], "seconds": 100}),
+    "C20": P(
+        "TestC20", "exploration",
+        "case = (multiset of 4..64 independent operations built from 2..8 distinct ones, 2..32 goroutines, release order, 1..2 rounds); operation = one of the 6 readers on a document rendered from the C01-C06 models (teletext pages with different national options included), one of the 5 writers on a heterogeneous cue list, or a transformation (add, fragment, unfragment, order, merge, optimize, remove styling, force duration, linear correction) on its own list; every call builds its own inputs. The test binary is built with -race; shards run with GOMAXPROCS 2, 4, 16. "
+        "Oracle: every call's canonical result equals its sequential result, and the race detector stays silent (a report fails the process; the driver turns it into a violation with the detector's report as replay). Non-trivial = >=2 distinct kinds of operation in the multiset; distinct = hash of the case.",
+        ["schedules are explored by repetition under the race detector, not enumerated: a race needing a window of a few instructions may survive many runs (the detector flags unsynchronised access even when results agree)",
+         "the injectable clock astisub.Now is set before the goroutines start and not touched while they run"],
+        shards=(4, 16), timeout=(1200, 7200), race=True, gomaxprocs=[2, 4, 16, 16],
+        technique="randomised concurrent execution of generated operation multisets under the Go race detector, differential against the sequential run",
+        text="Concurrency errors in package-level state (character tables, language maps, escapers, regexps) would show either as a race report or as a result differing from the sequential one; absence of races is not established.",
+        note="Trusted: the Go race detector, the canonical dumper.",
+        design="5/C20"),
 }
 
 # Properties deliberately not claimed (reason each); anything else missing from PROPS is work in progress.
